@@ -237,7 +237,8 @@ func (g *jgen) next() (jcase, string) {
 			c["m"] = "replacefn"
 			call = "[s.replace(r, function(){ L.push(Array.prototype.slice.call(arguments)); return '[' + arguments[0] + ']'; }), L]"
 		} else {
-			rep := g.pick("x", "", "$&", "[$&]", "$`", "$'", "$$", "<$&$&>", "-$`-", "$", "$x", "$0")
+			rep := g.pick("x", "", "$&", "[$&]", "$`", "$'", "$$", "<$&$&>", "-$`-", "$", "$x", "$0",
+				"$1", "$2", "$01", "$10", "$11", "$20", "$99", "$00", "$1$2", "a$1b$10c", "$$1", "$&0", "[$1|$2|$3]", "$02$1")
 			c["m"], c["rep"] = "replace", units(rep)
 			call = "[s.replace(r, " + jsx.StrLit(units(rep)) + "), L]"
 		}
@@ -246,7 +247,7 @@ func (g *jgen) next() (jcase, string) {
 	if form == "lit" {
 		ctor = "/" + src + "/" + flags
 	}
-	js := "var r = " + ctor + ", L = [], s = " + jsx.StrLit(units(s)) + "; r.lastIndex = " + fmt.Sprint(li) + "; var x = " + call + "; [x, r.lastIndex]"
+	js := "G(function(){ var r = " + ctor + ", L = [], s = " + jsx.StrLit(units(s)) + "; r.lastIndex = " + fmt.Sprint(li) + "; var x = " + call + "; return [x, r.lastIndex]; })"
 	return c, js
 }
 
